@@ -46,8 +46,36 @@ def find_ifs(node, tag):
     return out
 
 
+MACROS = {}      # name -> jinja2 Macro node of the template (and of its base template) currently sliced
+
+
 def paths(node, env, out):
     """collect attribute paths; env maps variable names to path prefixes"""
+    call = node.call if isinstance(node, N.CallBlock) else node if isinstance(node, N.Call) else None
+    if call is not None and isinstance(call.node, N.Name) and call.node.name in MACROS and not getattr(call, '_pdv_seen', False):
+        m = MACROS[call.node.name]
+        env2 = dict(env)
+        for i, a in enumerate(m.args):
+            arg = call.args[i] if i < len(call.args) else next((k.value for k in call.kwargs if k.key == a.name), None)
+            c = chain(arg, env) if arg is not None else None
+            if c is not None:
+                env2[a.name] = c
+            elif a.name in env2:
+                del env2[a.name]
+        call._pdv_seen = True
+        try:
+            for b in m.body:
+                paths(b, env2, out)
+        finally:
+            call._pdv_seen = False
+    if isinstance(node, N.Assign) and isinstance(node.target, N.Name):
+        paths(node.node, env, out)
+        c = chain(node.node, env)
+        if c is not None:
+            env[node.target.name] = c          # {% set error_domain = error_domain_ref.type_def %}: later siblings read through the alias
+        elif node.target.name in env:
+            del env[node.target.name]
+        return
     if isinstance(node, N.For):
         paths(node.iter, env, out)
         base = chain(node.iter, env)
@@ -137,6 +165,8 @@ def build(obj, plist):
     plist = [p for p in plist if p] or []
     if not plist:
         return value(obj, [])
+    if obj is None:
+        return None          # attributes of None are undefined in Jinja and None itself is false: keep it None
     if all(p[0] == '[]' for p in plist):
         if obj is None:
             return None          # e.g. method.throwing: the template guards the loop with `if method.throwing`
@@ -178,6 +208,16 @@ def run_case(case, api_cache={}):
             gen = gens[fr['gen']]
             src = gen.template_preprocessing(fr['template'])
             ast = gen._jinja_env.parse(src)
+            MACROS.clear()
+            macro_nodes = []
+            try:
+                base_ast = gen._jinja_env.parse(gen.template_preprocessing('base.jinja2'))
+                macro_nodes += [n for n in base_ast.body if isinstance(n, N.Macro)]
+            except Exception:  # noqa
+                pass
+            macro_nodes += [n for n in ast.body if isinstance(n, N.Macro)]
+            for n in macro_nodes:
+                MACROS[n.name] = n
             if 'if_tag' in fr:
                 f = find_ifs(ast, fr['if_tag'])[0]
             else:
@@ -189,7 +229,7 @@ def run_case(case, api_cache={}):
                 pre = []
                 if fr.get('counter'):
                     pre = [N.Assign(N.Name('counter', 'store'), N.Call(N.Name('namespace', 'load'), [], [N.Keyword('value', N.Const(fr.get('counter_init', 0)))], None, None))]
-                tmpl_ast = N.Template(pre + [f])
+                tmpl_ast = N.Template(pre + (macro_nodes if fr.get('macros') else []) + [f])
                 tmpl_ast.set_environment(gen._jinja_env)
                 for n_ in tmpl_ast.find_all(N.Node):
                     if getattr(n_, 'lineno', None) is None:
@@ -229,16 +269,26 @@ def run_case(case, api_cache={}):
 CLASS_OF = {'enum': 'Enum', 'flags': 'Flags', 'record': 'Record', 'interface': 'Interface', 'function': 'Function', 'error_domain': 'ErrorDomain'}
 ATTRS = {'Enum': ['items'], 'Flags': ['flags'], 'Record': ['fields'], 'Interface': ['methods', 'properties'], 'Function': ['parameters'],
          'ErrorDomain': ['error_codes']}
-SUPPORTED_FILTERS = {'comment', 'indent', 'sort', 'any', 'all', 'map', 'concat', 'join', 'length', 'list'}
+SUPPORTED_FILTERS = {'comment', 'indent', 'sort', 'any', 'all', 'map', 'concat', 'join', 'length', 'list', 'replace'}
 
 
-def unsupported(f):
-    """constructs of a loop subtree that the TIR interpreter does not evaluate (calls of macros / methods, exotic loop attributes, ...)"""
+def const_or_chain_args(n):
+    return not n.dyn_args and not n.dyn_kwargs
+
+
+def unsupported(f, known_macros=(), uses_macros=None):
+    """constructs of a loop subtree that the TIR interpreter does not evaluate (exotic loop attributes, unknown filters, ...)"""
     why = set()
+    uses_macros = uses_macros if uses_macros is not None else set()
     for n in f.find_all(N.Node):
         if isinstance(n, N.Call) and isinstance(n.node, N.Getattr) and const_call(n):
             continue
-        if isinstance(n, (N.Call, N.CallBlock, N.Macro, N.Include, N.Import, N.FromImport)):
+        if isinstance(n, N.Call) and isinstance(n.node, N.Name) and n.node.name in known_macros and const_or_chain_args(n):
+            uses_macros.add(n.node.name)
+            continue
+        if isinstance(n, N.CallBlock):
+            continue            # its call is judged as a Call node
+        if isinstance(n, (N.Call, N.Macro, N.Include, N.Import, N.FromImport)):
             why.add(type(n).__name__)
         if isinstance(n, N.Filter) and n.name not in SUPPORTED_FILTERS:
             why.add('filter:' + n.name)
@@ -267,9 +317,16 @@ def list_loops():
                 if cls is None:
                     continue
                 ast = g._jinja_env.parse(g.template_preprocessing(rel))
+                known = {n.name for n in ast.body if isinstance(n, N.Macro)}
+                try:
+                    known |= {n.name for n in g._jinja_env.parse(g.template_preprocessing('base.jinja2')).body if isinstance(n, N.Macro)}
+                except Exception:  # noqa
+                    pass
                 for attr in ATTRS[cls]:
                     for k, f in enumerate(find_fors(ast, attr)):
-                        out.append({'gen': g.key, 'template': rel, 'attr': attr, 'index': k, 'decl_class': cls, 'unsupported': unsupported(f)})
+                        used = set()
+                        out.append({'gen': g.key, 'template': rel, 'attr': attr, 'index': k, 'decl_class': cls,
+                                    'unsupported': unsupported(f, known, used), 'macros': sorted(used)})
     return out
 
 
